@@ -211,31 +211,31 @@ func (c *completion) complete(args []string) []Completion {
 			prefix, optname, islong := stripOptionPrefix(arg)
 			optname, _, argument := splitOption(prefix, optname, islong)
 
-			if argument == nil {
-				var o *Option
-				canarg := true
+			var o *Option
+			canarg := true
 
-				if islong {
-					o = s.lookup.longNames[optname]
-				} else {
-					for i, r := range optname {
-						sname := string(r)
-						o = s.lookup.shortNames[sname]
+			if islong {
+				o = s.lookup.longNames[optname]
+			} else {
+				for i, r := range optname {
+					sname := string(r)
+					o = s.lookup.shortNames[sname]
 
-						if o == nil {
-							break
-						}
+					if o == nil {
+						break
+					}
 
-						if i == 0 && o.canArgument() && len(optname) != len(sname) {
-							canarg = false
-							break
-						}
+					if i == 0 && o.canArgument() && len(optname) != len(sname) {
+						canarg = false
+						break
 					}
 				}
+			}
 
-				if o == nil && (c.parser.Options&IgnoreUnknown) != None {
-					c.passThrough(s, arg)
-				} else if o == nil && (c.parser.Options&PassAfterNonOption) != None {
+			if o == nil && (c.parser.Options&IgnoreUnknown) != None {
+				c.passThrough(s, arg)
+			} else if argument == nil {
+				if o == nil && (c.parser.Options&PassAfterNonOption) != None {
 					opt = nil
 					c.skipPositional(s, len(s.args)-1)
 
